@@ -21,7 +21,9 @@ import (
 )
 
 var (
-	templateReplaceCaptureRE = regexp.MustCompile(`\$\{?([a-zA-Z0-9_\$]+)\}?`)
+	// A reference is $name or ${name}; the name must not swallow a following `$`,
+	// otherwise adjacent references such as "$1$2" are read as one unknown name.
+	templateReplaceCaptureRE = regexp.MustCompile(`\$\{?([a-zA-Z0-9_]+)\}?`)
 )
 
 type TemplateFormatter struct {
